@@ -1,4 +1,6 @@
 """C11 — Galerkin entries are additive under splitting of either element."""
+import contextlib
+import io
 from fractions import Fraction as F
 
 from ..common import run_driver, seed_rng
@@ -6,6 +8,7 @@ from ..qnum import installed
 from ..sllib import TIME_LATTICE, Fixture, random_space_intervals, result_str
 from ..slchecks import (RealOps, corr_panels, describe, dummy_children, ok_aspect, random_real_mesh, seam_and_corner_pairs,
                         with_generated)
+from ..slchecks import StubElem, make_curve  # noqa: E402
 from .C04 import translate  # noqa: F401
 
 PROP_MODS = ['Stbem.Props.C11', 'Stbem.Props.PanelsTie']
@@ -133,4 +136,42 @@ def search(res, tier, boost=False):
                             res.violation('C11:not-additive:%s' % ('exact-path' if pw else 'quadrature-path'),
                                           dict(curve=cname, pw_exact=pw, test=describe(te), trial=describe(tr), split_test=ks,
                                                split_trial=kk, parent=float(parent), pieces=float(s), scaled_error=err))
+    # DEEP elements (time level 16..26, h_t down to 1.5e-8; space level so that h_x^2 / h_t stays O(1)): parent and
+    # children differ by less than 1e-6 in their coordinates; parent, children and neighbours are all evaluated by one
+    # operator object
+    gamma0 = make_curve('UnitSquare')
+    with contextlib.redirect_stdout(io.StringIO()):
+        from src.mesh import MeshParametrized
+        ops = RealOps(gamma0, MeshParametrized(gamma0))
+    n_deep = (6 if tier == 'quick' else 40) * (2 if boost else 1)
+    for it in range(n_deep):
+        lt = rng.randint(16, 26)
+        lx = max(1, (lt + rng.randint(-2, 2)) // 2)
+        ht, hx = 2.0**-lt, 2.0**-lx
+        kt = rng.choice([0, 1, 2, rng.randrange(2**min(lt, 20))])
+        piece = rng.randrange(4)
+        kx = rng.randrange(2**lx - 1)
+        g = gamma0.pw_gamma[piece]
+        x0 = float(gamma0.pw_start[piece]) + kx * hx
+        te = StubElem((kt * ht, (kt + 1) * ht), (x0, x0 + hx), g)
+        cands = [te, StubElem(te.time_interval, (x0 + hx, x0 + 2 * hx), g)]
+        if kt >= 1:
+            cands.append(StubElem(((kt - 1) * ht, kt * ht), (x0, x0 + hx), g))
+        tr = cands[it % len(cands)]
+        sc = ops.scale(te, tr)
+        for pw in (False, True):
+            SL = ops.SL[pw]
+            parent = SL.bilform(tr, te)
+            kte, ktr = dummy_children(te), dummy_children(tr)
+            for ks, kk in (('time', 'none'), ('none', 'time'), ('space', 'none'), ('quarters', 'quarters'), ('time', 'space')):
+                sm = sum(SL.bilform(b, a) for a in kte[ks] for b in ktr[kk])
+                err = abs(sm - parent) / sc
+                worst = max(worst, err)
+                res.count(('split-deep', lt, lx, kt, piece, kx, it % 3, pw, ks, kk), True)
+                if err > 1e-7:
+                    res.violation('C11:not-additive:%s:deep' % ('exact-path' if pw else 'quadrature-path'),
+                                  dict(curve='UnitSquare', pw_exact=pw, test=describe(te), trial=describe(tr), split_test=ks,
+                                       split_trial=kk, parent=float(parent), pieces=float(sm), scaled_error=err,
+                                       time_level=lt, space_level=lx))
+                    break
     res.notes['worst_scaled_error'] = worst
